@@ -1,0 +1,165 @@
+//! Verification hooks (feature `verif-hooks`, off by default).
+//!
+//! These hooks are only compiled when the `verif-hooks` feature is enabled. They give external
+//! runtime monitors three capabilities:
+//!
+//! - `failpoint`: make the k-th fallible step of the current thread fail (thread-local countdown);
+//! - `lock_event`: log every attempt to lock the shared RNG (sequence number, thread, site) and
+//!   optionally perturb the schedule at that point (yield / short sleep, seeded);
+//! - `step`: count iterator steps (thread-local), with an optional ceiling that panics.
+//!
+//! With the feature off, none of this exists and the crate is unchanged.
+
+use std::{
+    cell::Cell,
+    sync::{
+        atomic::{AtomicBool, AtomicU64, Ordering},
+        Mutex,
+    },
+};
+
+use crate::Error;
+
+thread_local! {
+    /// Number of fallible steps seen by this thread since the last arming.
+    static FP_SEEN: Cell<u64> = const { Cell::new(0) };
+    /// If `Some(k)`, the k-th (0-based) fallible step fails.
+    static FP_FAIL_AT: Cell<Option<u64>> = const { Cell::new(None) };
+    /// Number of failures injected since the last arming.
+    static FP_FIRED: Cell<u64> = const { Cell::new(0) };
+    /// Iterator steps seen by this thread.
+    static STEPS: Cell<u64> = const { Cell::new(0) };
+    /// Ceiling on the number of iterator steps (panics above).
+    static STEP_CEILING: Cell<Option<u64>> = const { Cell::new(None) };
+    /// Small per-thread PRNG state used to perturb the schedule.
+    static PERTURB_STATE: Cell<u64> = const { Cell::new(0) };
+    /// Numeric thread label chosen by the monitor (0 = unlabeled).
+    static THREAD_LABEL: Cell<u64> = const { Cell::new(0) };
+}
+
+/// Arms (or disarms with `None`) the failpoint countdown of the current thread and resets the
+/// counters.
+pub fn arm_failpoint(fail_at: Option<u64>) {
+    FP_SEEN.with(|c| c.set(0));
+    FP_FIRED.with(|c| c.set(0));
+    FP_FAIL_AT.with(|c| c.set(fail_at));
+}
+
+/// Returns (number of fallible steps seen, number of injected failures) since the last arming.
+pub fn failpoint_stats() -> (u64, u64) {
+    (FP_SEEN.with(Cell::get), FP_FIRED.with(Cell::get))
+}
+
+/// A fallible step. Fails if the countdown of this thread reaches it.
+pub fn failpoint(site: &'static str) -> Result<(), Error> {
+    let seen = FP_SEEN.with(|c| {
+        let v = c.get();
+        c.set(v + 1);
+        v
+    });
+    if FP_FAIL_AT.with(Cell::get) == Some(seen) {
+        FP_FIRED.with(|c| c.set(c.get() + 1));
+        Err(Error::OperationNotPermitted(format!(
+            "verif-hooks: injected failure at {site} (step {seen})"
+        )))
+    } else {
+        Ok(())
+    }
+}
+
+/// Resets the step counter of this thread and sets the ceiling.
+pub fn reset_steps(ceiling: Option<u64>) {
+    STEPS.with(|c| c.set(0));
+    STEP_CEILING.with(|c| c.set(ceiling));
+}
+
+/// Returns the number of steps counted on this thread since the last reset.
+pub fn steps() -> u64 {
+    STEPS.with(Cell::get)
+}
+
+/// Counts one iterator step; panics above the ceiling if one is set.
+pub fn step(site: &'static str) {
+    let n = STEPS.with(|c| {
+        let v = c.get() + 1;
+        c.set(v);
+        v
+    });
+    if let Some(ceiling) = STEP_CEILING.with(Cell::get) {
+        if n > ceiling {
+            // Disarm first so that unwinding code does not panic again.
+            STEP_CEILING.with(|c| c.set(None));
+            panic!("verif-hooks: step ceiling {ceiling} exceeded at {site}");
+        }
+    }
+}
+
+/// One lock-attempt event.
+#[derive(Clone, Debug)]
+pub struct LockEvent {
+    pub seq: u64,
+    pub thread: u64,
+    pub site: &'static str,
+}
+
+static LOCK_LOG_ON: AtomicBool = AtomicBool::new(false);
+static LOCK_SEQ: AtomicU64 = AtomicU64::new(0);
+static LOCK_LOG: Mutex<Vec<LockEvent>> = Mutex::new(Vec::new());
+/// 0 = no perturbation; otherwise a seed mixed into every thread's perturbation stream.
+static PERTURB_SEED: AtomicU64 = AtomicU64::new(0);
+
+/// Labels the current thread in the lock-event log.
+pub fn set_thread_label(label: u64) {
+    THREAD_LABEL.with(|c| c.set(label));
+    PERTURB_STATE.with(|c| c.set(0));
+}
+
+/// Turns the lock-event log on or off (and clears it).
+pub fn lock_log_enable(on: bool) {
+    LOCK_LOG_ON.store(on, Ordering::SeqCst);
+    LOCK_LOG.lock().unwrap_or_else(|e| e.into_inner()).clear();
+    LOCK_SEQ.store(0, Ordering::SeqCst);
+}
+
+/// Takes the lock-event log.
+pub fn lock_log_take() -> Vec<LockEvent> {
+    std::mem::take(&mut *LOCK_LOG.lock().unwrap_or_else(|e| e.into_inner()))
+}
+
+/// Sets the schedule-perturbation seed (0 disables perturbation).
+pub fn set_perturbation(seed: u64) {
+    PERTURB_SEED.store(seed, Ordering::SeqCst);
+}
+
+/// Called right before each attempt to lock the shared RNG.
+pub fn lock_event(site: &'static str) {
+    let seed = PERTURB_SEED.load(Ordering::Relaxed);
+    if seed != 0 {
+        let label = THREAD_LABEL.with(Cell::get);
+        let r = PERTURB_STATE.with(|c| {
+            let mut x = c.get();
+            if x == 0 {
+                x = seed ^ label.wrapping_mul(0x9E37_79B9_7F4A_7C15) ^ 0xD1B5_4A32_D192_ED03;
+            }
+            // xorshift64*
+            x ^= x >> 12;
+            x ^= x << 25;
+            x ^= x >> 27;
+            c.set(x);
+            x.wrapping_mul(0x2545_F491_4F6C_DD1D) >> 33
+        });
+        match r % 8 {
+            0 | 1 => std::thread::yield_now(),
+            2 => std::thread::sleep(std::time::Duration::from_micros(r % 200)),
+            _ => {}
+        }
+    }
+    if LOCK_LOG_ON.load(Ordering::Relaxed) {
+        let seq = LOCK_SEQ.fetch_add(1, Ordering::SeqCst);
+        let thread = THREAD_LABEL.with(Cell::get);
+        LOCK_LOG
+            .lock()
+            .unwrap_or_else(|e| e.into_inner())
+            .push(LockEvent { seq, thread, site });
+    }
+}
